@@ -59,7 +59,8 @@ GenCases ==
 
 GenPost == LET seq == SetToSeq(GenCases)
                out == [k \in 1..Len(seq) |-> [id |-> k] @@ seq[k]]
-           IN /\ PrintT(<<"GENERATED", Len(seq)>>)
+           IN /\ TLCSet(2, 0)
+              /\ PrintT(<<"GENERATED", Len(seq)>>)
               /\ ndJsonSerialize(IOEnv.OUT, out)
 
 (***************************************************************************)
